@@ -70,9 +70,9 @@ func PackValues(format string, values []rt.Value, budget uint64) (string, uint64
 				p.nextIntValue() &&
 				p.write(8, p.intVal)
 		case 'L', 'J', 'T':
+			// Any Lua integer fits: it is taken as an unsigned value
 			_ = p.align(8) &&
 				p.nextIntValue() &&
-				p.checkBounds(0, math.MaxInt64) &&
 				p.write(8, uint64(p.intVal))
 		case 'i':
 			_ = p.smallOptSize(8) &&
@@ -334,8 +334,8 @@ func (p *packer) packUint() bool {
 		// It's an uint32
 		return p.checkBounds(0, math.MaxUint32) && p.write(4, uint32(p.intVal))
 	case n == 8:
-		// It's an uint64
-		return p.checkBounds(0, math.MaxInt64) && p.write(8, uint64(p.intVal))
+		// It's an uint64: any Lua integer fits (it is taken as an unsigned value)
+		return p.write(8, uint64(p.intVal))
 	case n > 8:
 		// Pad to make up the length
 		if p.byteOrder == binary.BigEndian {
